@@ -43,10 +43,10 @@ SPEC = dict(
     rule=("cases = sources the real parser accepts, handed to the model as the AST the real parser built: corpus of past "
           "failures; every infix operator (20) / prefix operator (3) under every other on either side with and without "
           "parentheses over three atom sets (exhaustive depth 2); every statement kind nested in every other (pairs; triples "
-          "sampled); statements starting with a sign / parenthesis after 19 kinds of statement ends; all sequences of <=3 (quick) / <=4 (thorough) atoms from {\\\", \", ', \\\\, \\n, newline, {{, }}, é, a, "
+          "sampled); statements starting with a sign / parenthesis after 19 kinds of statement ends; depth-3 nestings with a prefix operator as right operand under every pair of infix operators; postfixes after multi-line containers; let / sink attributes with operator operands; blank lines before except/otherwise/finally/elif/else and after mutex/sink; string values with % and invalid UTF-8 bytes (escaped and raw); all sequences of <=3 (quick) / <=4 (thorough) atoms from {\\\", \", ', \\\\, \\n, newline, {{, }}, é, a, "
           "\\u005c} in the four literal forms; lists/maps with threshold-1/=/+1 elements in 12 contexts; one comment / blank "
           "line before every token of 12 base programs (8 comment shapes) and random multiple insertions; random deeper "
-          "expressions and random programs. Compared: printed text byte for byte (model printer vs PrettyPrint), Go's own "
+          "expressions and random programs. About every 3rd case also runs tool.FormatFiles on a scratch file (ff=ok: file bytes = PrettyPrint text + newline, a file with another extension untouched). Compared: printed text byte for byte (model printer vs PrettyPrint), Go's own "
           "round trip verdicts rt/idem/beh against what the theorems predict. Non-trivial = AST with at least 3 nodes."),
     exhaustive="depth-2 operator nestings, statement pairs, string atom sequences up to the stated length",
     trusted_base=[
@@ -56,9 +56,9 @@ SPEC = dict(
         "theorems are about the expression-level model and the string-literal model; statements, comments and blank lines are covered by the correspondence run only",
     ],
     assumptions=[
-        "no rt verdict is predicted for the structurally defined class newline-inside-statement: a /* */ comment in front of a token that does not start its statement, a blank line directly behind the keyword of a return statement, a bare return used as an operand, a # comment unless it sits on an identifier/number leaf and is printed directly behind that token at the end of a line",
+        "no rt verdict is predicted for the structurally defined class newline-inside-statement: a /* */ comment in front of a token that does not start its statement, a blank line directly behind the keyword of a return statement, a bare return used as an operand, a composition access [..] behind a call/access of the same identifier chain whose text spans lines (x := a([1,2,3,4,5])[0]), a # comment unless it sits on an identifier/number leaf and is printed directly behind that token at the end of a line",
         "no idem verdict is predicted for the class layout-not-idempotent: the class above, any /* */ comment, a blank line in front of a token that does not start its statement or in front of an infix operator, a mutex/sink statement followed by a statement without a blank line before it",
-        "both classes are computed independently by the harness (Go AST) and the driver (payload AST); Go's real outcomes inside the classes are counted in input_distribution; outside the classes rt=ok idem=ok is demanded",
+        "all classes are computed independently by the harness (Go AST) and the driver (payload AST); Go's real outcomes inside the classes are counted in input_distribution; outside the classes rt=ok idem=ok is demanded",
     ],
     decode=decode,
 )
